@@ -1,7 +1,10 @@
 """C01 — an empty command line reproduces the dataclass defaults at every destination."""
 from __future__ import annotations
 
+import glob
 import itertools
+import json
+import os
 import random
 
 import leafdsl as L
@@ -18,7 +21,7 @@ RULE = ("random dataclass trees: 0-3 leaf fields per class over the CLI type gra
         "as several members and at several destinations, classes rendered with 0-2 levels of real inheritance (some defaults overridden "
         "in the subclass); 1-3 destinations x 4 conflict modes x 3 generation modes x 2 nested modes x 3 dash variants x {parse(), "
         "ArgumentParser} (quick: a seeded sample of the 144 combinations per forest, thorough: all of them) x {no default instance, a "
-        "default instance with other leaf values on all / some destinations}. A block of hand-written shapes (the reconnaissance "
+        "default instance with other leaf values on all / some destinations}. The corpus (corpus/C01: shrunk past failures) and a block of hand-written shapes (the reconnaissance "
         "witnesses of DESIGN 5 #3 #4 #19 #20, falsy defaults, empty classes) comes first. Non-trivial = the parser was set up and "
         "the forest has a nested member, a container/Optional leaf or a default instance; distinct by full case.")
 TRUSTED = ["harness renders the generated class trees as Python source (inheritance included) and reads instances back with implutil.canon",
@@ -238,9 +241,20 @@ def handwritten():
     return out
 
 
+def corpus():
+    """minimised past failures (corpus/C01/*.json, each {"case": ...}), replayed first in every run"""
+    d = os.path.join(os.path.dirname(os.path.dirname(os.path.dirname(os.path.abspath(__file__)))), "corpus", "C01")
+    out = []
+    for f in sorted(glob.glob(os.path.join(d, "*.json"))):
+        c = json.load(open(f)).get("case")
+        if isinstance(c, dict) and "forest" in c and "cfg" in c:
+            out.append(c)
+    return out
+
+
 def gen(tier, seed):
     rng = random.Random(f"C01-{seed}")
-    cases = handwritten()
+    cases = corpus() + handwritten()
     cfgs = all_cfgs()
     nforest = 260 if tier == "quick" else 420
     per = 9 if tier == "quick" else len(cfgs)
@@ -474,9 +488,9 @@ def signature(case, obs, reason):
         df = first_diff(w, ov)
         if df:
             path, a, b = df
-            if a.get("t") == "dc" and b.get("t") == "none":
-                return "optional-member-with-default:None"                                    # DESIGN 5 #3
             if not merge:
+                if a.get("t") == "dc" and b.get("t") == "none":
+                    return "optional-member-with-default:None"                                # DESIGN 5 #3 (repaired)
                 return "value:" + _kind(a) + "->" + _kind(b)
             cause = merge_cause(case)
             if cause == "other" and a.get("t") == "list" and (b in a["v"] or b.get("t") == "list"):
